@@ -1,5 +1,5 @@
 """Property id -> check entry point."""
-import importlib
+import importlib, os
 from . import common as C
 from . import l1check
 
@@ -92,6 +92,9 @@ def c01_entry(pid, relay_only):
         from . import c01conc
         if replay:
             if replay.endswith(".json"):
+                if "c02wire" in os.path.basename(replay):
+                    from . import c02wire
+                    return c02wire.run("quick", None, merge=False)
                 return c01conc.do_replay(replay)
             return l1check.replay(pid, replay)
         rc1 = l1check.run(pid, tier, L1[pid])
@@ -100,7 +103,13 @@ def c01_entry(pid, relay_only):
         rc2 = c01conc.run(tier, None, merge_pid=pid, relay_only=relay_only)
         if rc2 == 2:
             return 2
-        return 1 if (rc1 or rc2) else 0
+        rc3 = 0
+        if pid == "C02":
+            from . import c02wire
+            rc3 = c02wire.run(tier, None, merge=True)
+            if rc3 == 2:
+                return 2
+        return 1 if (rc1 or rc2 or rc3) else 0
     return f
 
 CHECKS = {pid: l1_entry(pid) for pid in L1}
@@ -119,6 +128,21 @@ def c13_entry(tier, replay):
         return 2
     return 1 if (rc1 or rc2) else 0
 
+def c10_entry(tier, replay):
+    from . import c10conc
+    if replay:
+        if replay.endswith(".json"):
+            return c10conc.run(tier, replay)
+        return l1check.replay("C10", replay)
+    rc1 = l1check.run("C10", tier, L1["C10"])
+    if rc1 == 2:
+        return 2
+    rc2 = c10conc.run(tier, None, merge=True)
+    if rc2 == 2:
+        return 2
+    return 1 if (rc1 or rc2) else 0
+
+CHECKS["C10"] = c10_entry
 CHECKS["C13"] = c13_entry
 CHECKS["C01"] = c01_entry("C01", False)
 CHECKS["C02"] = c01_entry("C02", True)
